@@ -186,6 +186,8 @@ class Interp:
         self.max_depth = max_depth
         self.keep_live = set()
         self.widen = True
+        self.log_loads = False
+        self.loads = set()
         self.events = []
         self.hooks_call = []                 # f(interp, fn, node, name, args, state) -> None | list[(state, val)]
         self.hooks_store = []                # f(interp, fn, node, cell, val, state) -> state|None
@@ -789,6 +791,10 @@ class Interp:
             raise
 
     def load_cells(self, st, cells, ct):
+        if self.log_loads:
+            for c in cells:
+                if cell_base(c)[0] == "heap":
+                    self.loads.add(c)
         if not cells:
             return self.top_for_type(ct)
         out = set()
